@@ -34,6 +34,14 @@ func (e *Engine) faultPoint(name string) bool {
 	return false
 }
 
+// choicePoint forks on a fresh symbolic boolean that stands for a fact about the environment
+// (not a fault): whether a file exists, is regular, is newer than another.
+func (e *Engine) choicePoint(name string) bool {
+	e.faultSeq[name]++
+	v := e.symVar(fmt.Sprintf("env_%s_%d", name, e.faultSeq[name]), 0)
+	return e.decide(v, "env")
+}
+
 func nativeErr(msg string) Value { return &Iface{T: errType, V: &Native{Kind: "error", Msg: msg}} }
 
 func (e *Engine) fileToken(name string) *Cell {
@@ -172,15 +180,15 @@ func init() {
 		},
 		"os.Stat": func(e *Engine, fn *ssa.Function, a []Value) Value {
 			name := e.showStr(a[0])
-			if e.faultPoint("stat") {
+			if e.choicePoint("stat_fails") {
 				return Tuple{(*Iface)(nil), nativeErr("stat " + name + ": no such file or directory")}
 			}
 			return Tuple{&Iface{T: fn.Signature.Results().At(0).Type(), V: &Native{Kind: "fileinfo", Data: name}}, (*Iface)(nil)}
 		},
-		"(io/fs.FileMode).IsRegular": func(e *Engine, _ *ssa.Function, a []Value) Value { return !e.faultPoint("notregular") },
-		"(io/fs.FileMode).IsDir":     func(e *Engine, _ *ssa.Function, a []Value) Value { return e.faultPoint("isdir") },
-		"(time.Time).After":          func(e *Engine, _ *ssa.Function, a []Value) Value { return e.faultPoint("newer") },
-		"(time.Time).Before":         func(e *Engine, _ *ssa.Function, a []Value) Value { return e.faultPoint("older") },
+		"(io/fs.FileMode).IsRegular": func(e *Engine, _ *ssa.Function, a []Value) Value { return !e.choicePoint("notregular") },
+		"(io/fs.FileMode).IsDir":     func(e *Engine, _ *ssa.Function, a []Value) Value { return e.choicePoint("isdir") },
+		"(time.Time).After":          func(e *Engine, _ *ssa.Function, a []Value) Value { return e.choicePoint("newer") },
+		"(time.Time).Before":         func(e *Engine, _ *ssa.Function, a []Value) Value { return e.choicePoint("older") },
 		"(*os.File).Truncate": func(e *Engine, _ *ssa.Function, a []Value) Value {
 			e.env["truncated"] = fileName(a[0])
 			return (*Iface)(nil)
